@@ -69,7 +69,30 @@ ALGOS = {
 }
 
 
+# legacy optimisers with the objective-function interface: optimize(objfn, k, sspace, objfn_wt) -> (score(s), decision(s), misc)
+LEGACY = {"legacy.hc": ("UnconstrainedSteepestAscentSetHillClimber", 1), "legacy.setga": ("UnconstrainedSetGeneticAlgorithm", 1),
+          "legacy.nsga2": ("UnconstrainedNSGA2SetGeneticAlgorithm", 2)}
+
+
+def _gen_legacy(R):
+    name = R.choice(sorted(LEGACY))
+    n = R.randint(3, 9)
+    k = R.randint(1, n - 1)
+    ints = R.random() < 0.5               # small integer data: ties between different subsets
+    ebv = [[float(R.randint(-2, 2)) if ints else R.gauss(0, 1) for _ in range(2)] for _ in range(n)]
+    space = list(range(n))
+    if R.random() < 0.4:
+        R.shuffle(space)
+        space = space[:R.randint(k + 1, n)] if k + 1 <= n else space
+    nobj = LEGACY[name][1]
+    return {"algo": name, "n": n, "k": min(k, len(space) - 1) or 1, "ebv": ebv, "space": space, "wt": [R.choice([1.0, 1.0, -1.0, 2.0]) for _ in range(nobj)],
+            "ngen": R.randint(2, 4), "pop": R.choice([8, 12]), "seed": R.randrange(1 << 31), "mode": R.choice(["global", "Generator", "RandomState"]),
+            "rngseed": R.randrange(1 << 30), "script": [], "entropy_world": R.randrange(1000), "con": False}
+
+
 def generate(R, tier):
+    if R.random() < 0.12:
+        return _gen_legacy(R)
     name = R.choice(sorted(ALGOS))
     cls, kind, nobj, has_rng, ga = ALGOS[name]
     n = R.randint(3, 10)
@@ -106,6 +129,21 @@ def generate(R, tier):
 
 
 def shrink(sc):
+    if sc["algo"] in LEGACY:
+        for key, small in (("ngen", 2), ("pop", 8)):
+            if sc[key] > small:
+                c = copy.deepcopy(sc)
+                c[key] = small
+                yield c
+        if sorted(sc["space"]) != sc["space"]:
+            c = copy.deepcopy(sc)
+            c["space"] = sorted(sc["space"])
+            yield c
+        if any(w != 1.0 for w in sc["wt"]):
+            c = copy.deepcopy(sc)
+            c["wt"] = [1.0] * len(sc["wt"])
+            yield c
+        return
     if sc.get("rebound") and ALGOS[sc["algo"]][1] != "subset":
         c = copy.deepcopy(sc)
         c["rebound"] = None
@@ -212,7 +250,84 @@ def _feasible(kind, x, prob, k):
     return None
 
 
+def _exec_legacy(sc):
+    import importlib
+    name = sc["algo"]
+    cname, nobj = LEGACY[name]
+    cls = getattr(importlib.import_module("pybrops.opt.algo." + cname), cname)
+    C = cname + ".optimize"
+    V, log, faults, probes = [], [], {}, {}
+    ebv = numpy.array(sc["ebv"], dtype=float)
+    space = numpy.array(sc["space"], dtype=int)
+    wt = numpy.array(sc["wt"], dtype=float)
+    k = sc["k"]
+
+    def objfn(sel, **kw):
+        v = ebv[numpy.asarray(sel, dtype=int)].sum(0)
+        return (float(v[0]), float(v[1])) if nobj == 2 else (float(v.sum()) if name == "legacy.hc" else (float(v.sum()),))
+    kw = {} if name == "legacy.hc" else dict(ngen=sc["ngen"], mu=sc["pop"], lamb=sc["pop"])
+    g = None
+    if sc["mode"] != "global":
+        g = rngseam.make(sc["mode"], sc["rngseed"], [])
+        kw["rng"] = g
+    prng.seed(sc["seed"])
+    space0 = space.copy()
+    try:
+        res = cls(**kw).optimize(objfn, k, space, wt if nobj == 2 or name != "legacy.hc" else float(wt[0]))
+    except Exception as e:
+        V.append(viol("optimiser-completes", C, "raises:%s" % type(e).__name__, "%s (n=%d, k=%d, candidates %s, weights %s) raised %s: %s" % (name, sc["n"], k, sc["space"], sc["wt"], type(e).__name__, str(e)[:200])))
+        return _out(sc, V, log, faults, probes, False, g)
+    if not numpy.array_equal(space, space0):
+        V.append(viol("problem-unmodified", C, "search-space", "the candidate array handed to optimize() was modified"))
+        return _out(sc, V, log, faults, probes, True, g)
+    F = numpy.atleast_2d(numpy.asarray(res[0], dtype=float))
+    X = numpy.atleast_2d(numpy.asarray(res[1]))
+    if nobj == 1:
+        F = F.reshape(len(X), -1)
+    log.append([name, adig(X), adig(F)])
+    if len(X) == 0 or len(F) != len(X):
+        V.append(viol("solution-shape", C, "shape", "scores %r for decisions %r" % (F.shape, X.shape)))
+        return _out(sc, V, log, faults, probes, True, g)
+    cand = set(space.tolist())
+    for i, x in enumerate(X):
+        xs = [int(v) for v in x.tolist()]
+        if len(xs) != k or len(set(xs)) != len(xs):
+            V.append(viol("solution-in-decision-space", C, "duplicate-member" if len(xs) == k else "shape", "%s returned %s for a subset of %d distinct candidates" % (name, xs, k)))
+            return _out(sc, V, log, faults, probes, True, g)
+        if not set(xs) <= cand:
+            V.append(viol("solution-in-decision-space", C, "outside-candidates", "%s returned %s, candidates %s" % (name, xs, sorted(cand))))
+            return _out(sc, V, log, faults, probes, True, g)
+        fresh = numpy.atleast_1d(numpy.asarray(objfn(xs), dtype=float))
+        if fresh.shape != F[i].shape or not numpy.allclose(fresh, F[i], rtol=1e-12, atol=1e-300):
+            V.append(viol("reported-values-truthful", C, "objective", "decision %s: reported %s, fresh evaluation %s" % (xs, F[i].tolist(), fresh.tolist())))
+            return _out(sc, V, log, faults, probes, True, g)
+    if nobj == 2 and len(X) > 1:
+        W = F * wt[None, :]                    # maximising in every weighted objective
+        for i in range(len(X)):
+            for j in range(len(X)):
+                if i != j and numpy.all(W[i] >= W[j]) and numpy.any(W[i] > W[j]):
+                    V.append(viol("front-non-dominated", C, "dominated-member", "returned point %s (decision %s) is dominated by returned point %s (weights %s)" % (F[j].tolist(), X[j].tolist(), F[i].tolist(), sc["wt"])))
+                    return _out(sc, V, log, faults, probes, True, g)
+        probes["legacy_front_checked"] = 1
+    if name == "legacy.hc":
+        x = [int(v) for v in X[0].tolist()]
+        s0 = float(F[0].sum()) * float(wt[0])
+        rest = [c for c in space.tolist() if c not in set(x)]
+        for i in range(len(x)):
+            for c in rest:
+                y = list(x)
+                y[i] = c
+                s1 = float(objfn(y)) * float(wt[0])
+                if s1 > s0 + 1e-12 * (1 + abs(s0)):
+                    V.append(viol("hillclimber-local-optimum", C, "improving-exchange", "replacing %d in %s by %d raises the weighted score from %r to %r" % (x[i], x, c, s0, s1)))
+                    return _out(sc, V, log, faults, probes, True, g)
+        probes["exchange_neighbourhood_searched"] = 1
+    return _out(sc, V, log, faults, probes, True, g)
+
+
 def execute(sc):
+    if sc["algo"] in LEGACY:
+        return _exec_legacy(sc)
     name = sc["algo"]
     cls, kind, nobj, has_rng, ga = ALGOS[name]
     ebv = numpy.array(sc["ebv"], dtype=float)
@@ -352,6 +467,9 @@ def execute(sc):
 
 
 def _out(sc, V, log, faults, probes, ran, g):
+    if sc["algo"] in LEGACY:
+        trace = "%s|%s|w%s|n%d|k%d|%s" % (sc["algo"], sc["mode"], sc["wt"], sc["n"], sc["k"], "sp" if sorted(sc["space"]) != sc["space"] or len(sc["space"]) != sc["n"] else "-")
+        return {"violations": V, "log": log, "trace": trace, "nontrivial": ran, "faults": faults, "probes": probes, "sim": {"optimiser_runs": 1}}
     trace = "%s|con=%s%s%s|w%s|%s|%s|n%s|k%s" % (sc["algo"], sc["con"], "+eq" if sc.get("eq") else "", "+caps" if sc.get("caps") else "",
                                            "-" if (sc.get("obj_wt") or 1) < 0 else "+", sc["mode"], [r["mode"] for r in sc["script"]], "S" if sc["n"] <= 5 else "L",
                                          ("=n" if sc["k"] == (len(sc["space"]) if sc.get("space") is not None else sc["n"]) else ("1" if sc["k"] == 1 else "m")) + ("|sp" if sc.get("space") is not None else "") + ("|rb" if sc.get("rebound") else "") + ("|ocs" if sc.get("ocs") is not None else ""))
